@@ -252,6 +252,51 @@ def impl_call(name: str, r: List[Fr], s: List[str], light: bool = False) -> str:
             _stack_cache[key] = cb.ExtrudedStack(cb.Grid([0, 0, 0], [float(n0), float(n1), 0], n0, n1), float(n2), n2)
         stack = _stack_cache[key]
         return _outcome(lambda: stack.get_slice(axis, idx))
+    if name == "curveParam":
+        from classy_blocks.construct.curves.analytic import LineCurve
+        from classy_blocks.construct.curves.discrete import DiscreteCurve
+
+        pp, lo, hi = f
+        line = LineCurve([0, 0, 0], [1, 2, 0], bounds=(lo, hi))
+        outs = {"get_point": _outcome(lambda: line.get_point(pp))}
+        if not light:
+            outs["discretize-from"] = _outcome(lambda: line.discretize(pp, hi, 3))
+            outs["discretize-to"] = _outcome(lambda: line.discretize(lo, pp, 3))
+            if lo == 0 and hi == int(hi) and 1 <= hi <= 6:  # the same bounds on a curve given by hi + 1 points
+                disc = DiscreteCurve([[float(k), float(k * k), 0.0] for k in range(int(hi) + 1)])
+                outs["discrete"] = _outcome(lambda: disc.get_point(pp))
+        return _same(outs)
+    if name == "polylineShape":
+        from classy_blocks.util import functions as fn
+
+        if not i:
+            pts_ = 1.0
+        elif all(k > 0 for k in i):
+            pts_ = np.ones(tuple(i)).cumsum(axis=0)
+        else:
+            pts_ = np.ones(tuple(i)).tolist()  # an empty (nested) list, as a caller would pass it
+        return _outcome(lambda: fn.polyline_length(pts_))
+    if name == "polarArgs":
+        from classy_blocks.util import functions as fn
+
+        outs = {"to_cartesian": _outcome(lambda: fn.to_cartesian([1.0, 0.5, 2.0], i[0], s[0]))}
+        if i[0] in (-1, 1):  # to_polar has the axis argument only
+            outs["to_polar"] = _outcome(lambda: fn.to_polar([1.0, 0.5, 2.0], s[0]))
+        return _same(outs)
+    if name == "rotationLink":
+        from classy_blocks.optimize.links import RotationLink
+
+        leader, origin, axis = v3(0), v3(3), v3(6)
+        follower = [leader[0] + 1.0, leader[1] + 2.0, leader[2] - 1.0]
+        return _outcome(lambda: RotationLink(leader, follower, axis, origin))
+    if name == "elbowChain":
+        src = (
+            _cached("cyl", lambda: cb.Cylinder([0, 0, 0], [0, 0, 1], [1, 0, 0]))
+            if i[0] == 1
+            else _cached("ring", lambda: cb.ExtrudedRing([0, 0, 0], [0, 0, 1], [1, 0, 0], 0.5))
+        )
+        outs = {str(start): _outcome(lambda: cb.Elbow.chain(src, 1.0, [2, 0, 1], [0, 1, 0], 0.8, start)) for start in ((False,) if light else (False, True))}
+        return _same(outs)
     raise ValueError("unknown call " + name)
 
 
@@ -540,6 +585,29 @@ def py_pre(name: str, r: List[Fr], s: List[str]) -> Tuple[Optional[bool], str]:
         if not ok:
             return ok, site
         return _index("Stack.get_slice", f"index-axis-{axis}", idx, 0, (n0, n1, n2)[axis] - 1)
+    if name == "curveParam":
+        pp, lo, hi = r
+        if pp < lo:
+            return False, "CurveBase._check_param:parameter-below-lower-bound"
+        return pp <= hi, "CurveBase._check_param:parameter-above-upper-bound"
+    if name == "polylineShape":
+        if len(i) != 2 or i[1] != 3:
+            return False, "functions.polyline_length:points-not-nx3"
+        return i[0] >= 2, "functions.polyline_length:fewer-than-2-points"
+    if name == "polarArgs":
+        if i[0] not in (-1, 1):
+            return False, "functions.to_cartesian:direction-" + ("below-minus-1" if i[0] < -1 else "above-1" if i[0] > 1 else "zero")
+        return s[0] in ("x", "z"), "functions.to_cartesian/to_polar:unknown-axis"
+    if name == "rotationLink":
+        leader, origin, axis = r[0:3], r[3:6], r[6:9]
+        d = _sub(leader, origin)
+        n2 = _dot(axis, axis)
+        dist = math.sqrt(max(0.0, float(_dot(d, d) - _dot(d, axis) ** 2 / n2)))
+        if abs(Fr(dist) - TOL) < MARGIN:
+            return None, "RotationLink.__init__"
+        return Fr(dist) >= TOL, "RotationLink.__init__:leader-on-the-rotation-axis"
+    if name == "elbowChain":
+        return i[0] == 1, "Elbow.chain:source-sketch-not-a-disk"
     raise ValueError("unknown call " + name)
 
 
@@ -680,6 +748,29 @@ def boundary_cases(nframes: int = len(FRAMES), pair_lo: int = -2, pair_hi: int =
         for axis in (-2, -1, 0, 1, 2, 3, 4):
             for idx in (-5, -2, -1, 0, 1, 2, 3, 4, 5):
                 out.append(call("stackSlice", [axis, idx, *dims]))
+    # round 5: guards of functions and constructors outside the first catalogue
+    for lo, hi in ((Fr(0), Fr(1)), (Fr(0), Fr(3)), (Fr(-1, 2), Fr(5, 2)), (Fr(2), Fr(2))):
+        eps = Fr(1, 10**9)
+        for pp in (lo - 1, lo - eps, lo, lo + eps, (lo + hi) / 2, hi - eps, hi, hi + eps, hi + 1):
+            out.append(call("curveParam", [_exact(fl(pp)), lo, hi]))
+    for dims in ([], [0], [3], [2], [0, 3], [1, 3], [2, 3], [3, 3], [5, 3], [2, 2], [2, 4], [3, 0], [2, 3, 1], [1, 2, 3]):
+        out.append(call("polylineShape", dims))
+    for d in (-3, -2, -1, 0, 1, 2, 3):
+        for axis in ("x", "z", "y", "X", "xz"):
+            out.append(call("polarArgs", [d], [axis]))
+    for fi, frame in enumerate(frames):
+        axis, e1, _ = frame
+        origin = [Fr(fi, 4), Fr(1, 2), Fr(-fi, 8)]
+        nn = math.sqrt(sum(c * c for c in e1))
+        for dist in (Fr(0), TOL / 2, TOL * Fr(999, 1000), TOL * Fr(1001, 1000), TOL * 2, Fr(1, 1000), Fr(3, 2)):
+            for along in (Fr(0), Fr(5, 4), Fr(-2)):
+                for sign in (1, -1):
+                    if dist == 0 and sign == -1:
+                        continue
+                    leader = [_exact(fl(origin[k]) + sign * float(dist) / nn * e1[k] + float(along) * axis[k]) for k in range(3)]
+                    out.append(call("rotationLink", leader + [_exact(fl(c)) for c in origin] + [Fr(c) for c in axis]))
+    out.append(call("elbowChain", [0]))
+    out.append(call("elbowChain", [1]))
     return out
 
 
@@ -770,7 +861,30 @@ def random_cases(rng: random.Random, n: int) -> List[dict]:
             out.append(call("loftedShape", [n1, n2, *mids], stream="random"))
         else:
             name = rng.choice(["faceAddEdge", "faceProjectEdge", "opAddSideEdge", "opProjectCorner", "opChop", "opUnchop",
-                               "opProjectEdge", "blockAddEdge", "frameAddBeam", "faceRemoveEdges", "chain"])  # fmt: skip
+                               "opProjectEdge", "blockAddEdge", "frameAddBeam", "faceRemoveEdges", "chain",
+                               "curveParam", "curveParam", "rotationLink", "rotationLink", "polylineShape"])  # fmt: skip
+            if name == "curveParam":
+                lo = Fr(rng.randint(-8, 8), 4)
+                hi = lo + Fr(rng.randint(0, 16), 4)
+                u = rng.random()
+                pp = _exact(rng.uniform(fl(lo), fl(hi))) if u < 0.6 else rng.choice([lo, hi]) if u < 0.75 else _exact(fl(rng.choice([lo, hi])) + rng.choice([-1, 1]) * 10 ** rng.uniform(-9, 0.5))
+                out.append(call(name, [pp, lo, hi], stream="random"))
+                continue
+            if name == "rotationLink":
+                axis, e1, e2 = rng.choice(FRAMES)
+                origin = [coord(), coord(), coord()]
+                u = rng.random()
+                dist = 10 ** rng.uniform(-6.6, 0.5) if u < 0.6 else rng.uniform(0, 0.9) * float(TOL) if u < 0.9 else 0.0
+                ang = rng.uniform(0, 6.283)
+                n1, n2 = math.sqrt(sum(c * c for c in e1)), math.sqrt(sum(c * c for c in e2))
+                along = rng.uniform(-2, 2)
+                leader = [_exact(fl(origin[k]) + dist * (math.cos(ang) * e1[k] / n1 + math.sin(ang) * e2[k] / n2) + along * axis[k]) for k in range(3)]
+                out.append(call(name, leader + origin + [Fr(c) for c in axis], stream="random"))
+                continue
+            if name == "polylineShape":
+                dims = [rng.randint(0, 4), rng.choice([3, 3, 3, 2, 4])] if rng.random() < 0.8 else [rng.randint(0, 3) for _ in range(rng.choice([1, 3]))]
+                out.append(call(name, dims, stream="random"))
+                continue
             if name in ("opProjectEdge", "blockAddEdge", "frameAddBeam"):
                 if rng.random() < 0.6:
                     a = rng.randrange(8)
@@ -981,7 +1095,7 @@ class C20(core.Check):
     props_module = "CBV.Props.C20"
     workers = 8
     rule = (
-        "call cases: one guarded constructor/mutator call of the catalogue (30 call kinds); the boundary stream has "
+        "call cases: one guarded constructor/mutator/function call of the catalogue (35 call kinds); the boundary stream has "
         "arguments on both sides of every boundary of every documented precondition (index -1/0/max/max+1 and further "
         "out, counts one below/at/one above, deviations 0, +-TOL/2, +-TOL(1-1e-3), +-TOL(1+1e-3), +-1e-3, +-0.5 in 8 "
         "rational frames, radii at/around equality and zero, lengths around zero), the random stream is seeded and "
